@@ -146,23 +146,31 @@ Theorem C34_exit_idle_restart_witness :
 Proof. exact exit_idle_restart_witness. Qed.
 Print Assumptions C34_exit_idle_restart_witness.
 
-(* The bridge: clauses 1 (READY soundness), 2 (order), 3 (a pass ends only by publishing TF)
-   and 4 (sticky TF) hold on every trace of the model, for every op list.
-   PARTIAL: not covered is clause 5: "a running pass is never left with the list exhausted and
-   every active sub-channel's latest state TF without publishing TF", i.e. the invariant
-     forall s, reachable s -> firstPass s = true -> all_failed s = false.
-   It is evaluated on every implementation trace (it is the clause that reports the defect
-   repaired by 5362b94) and held on 800000 random histories of the model (extracted OCaml; the
-   only counterexamples were of the repaired class), but it is not proved; the proof needs
-   the joint invariant: active sub-channels have distinct addresses that lie in the list; a
-   sub-channel whose latest state is READY is the only one, the cursor is on it and no timer
-   runs; a running timer implies the cursor's sub-channel is not in TF; a sub-channel in TF
-   without failure mark lies at or after the cursor; the list is exhausted only with an
-   unmarked sub-channel left; every pass starts with the cursor on the first address. *)
-Theorem C34_holds_on_every_model_trace_partial : forall ops,
-  exists obs, run ops = Some obs /\ holds_proved ops obs = true.
+(* "after every address failed it reports TRANSIENT_FAILURE", as an invariant over ALL
+   histories: in no reachable state with a pass running is the address list exhausted with
+   every active sub-channel's latest state TRANSIENT_FAILURE - such a state is left, in the
+   operation that would create it, by ending the pass, which publishes TF (theorems above). *)
+Theorem C34_no_silent_all_failed : forall s, reachable s -> firstPass s = true -> all_failed s = false.
+Proof. exact reachable_not_all_failed. Qed.
+Print Assumptions C34_no_silent_all_failed.
+
+(* the joint invariant behind it, in every reachable state: at most one active sub-channel per
+   address (Dv); their addresses lie in the list (Sv); an active sub-channel whose latest state is
+   READY is the only one, the cursor is on it, no timer runs and READY is published (Rv); a
+   running timer means a pass runs and the cursor's sub-channel is not in TF (Cv); a sub-channel
+   in TF without connectionFailedInFirstPass has not been passed by the cursor (Fv); with the
+   list exhausted during a pass some active sub-channel is not in TF (Ev) *)
+Theorem C34_joint_invariant : forall s, reachable s -> Dv s /\ Sv s /\ Rv s /\ Cv s /\ Fv s /\ Ev s.
+Proof. exact reachable_joint. Qed.
+Print Assumptions C34_joint_invariant.
+
+(* The bridge: every clause (1 READY soundness, 2 order, 3 a pass ends only by publishing TF,
+   4 sticky TF, 5 no silent all-failed state) holds on every trace of the model, for every
+   op list. *)
+Theorem C34_holds_on_every_model_trace : forall ops,
+  exists obs, run ops = Some obs /\ holds_b ops obs = true.
 Proof. exact model_trace_holds. Qed.
-Print Assumptions C34_holds_on_every_model_trace_partial.
+Print Assumptions C34_holds_on_every_model_trace.
 
 (* non-vacuity: interleaving; the former sticky-TF counterexample (only TF is published when
    the added address is tried); a late READY from a shut-down sub-channel is ignored *)
